@@ -57,6 +57,8 @@ def shape_term(rnd, name, lo, hi, kinds=None, d=3, kind=None, degenerate=True):
         p = [g(), pos()]
     elif k == "GaussianProduct":
         a, b = sorted([g(), g()])
+        if degenerate and rnd.random() < 0.2:
+            a, b = b, a  # overlapping halves
         p = [a, pos(), b, pos()]
     elif k == "Sigmoid":
         p = [g(), rnd.choice([-1, 1]) * slope()]
